@@ -542,6 +542,21 @@ impl Exec {
                 }));
                 Some(r.unwrap_or_else(|_| panic_text()))
             }
+            ["rtdec", id, _sender, _dst, _name, rest @ ..] => {
+                // the output of an earlier encoder call (last token) handed to the decoder of `id`
+                let p = parse_bytes(rest.last()?)?;
+                let c = self.ctxs.get(*id)?;
+                let r = catch_unwind(AssertUnwindSafe(|| match c.decode_packet(&p) {
+                    Ok((t, payload)) => format!(
+                        "ok {} {} {}",
+                        type_name(&t),
+                        offset_of(&p, payload),
+                        payload.len()
+                    ),
+                    Err((t, e)) => format!("err {} {}", type_name(&t), err_name(&e)),
+                }));
+                Some(r.unwrap_or_else(|_| panic_text()))
+            }
             ["len", pkt] | ["len", _, pkt] => {
                 let id = if toks.len() == 3 { Some(toks[1]) } else { None };
                 let p = parse_bytes(pkt)?;
